@@ -15,7 +15,9 @@ CLAIMED = {
                 "every path, that the result equals the documented arithmetic, that exceptions occur exactly where "
                 "documented, that no Rust panic (overflow, division) is reachable, and that `+=`/`-=` store what "
                 "`+`/`-` compute. Bound: one step; `**` exactness rests on an uninterpreted exact-power model of "
-                "i64::checked_pow that is validated concretely against the binary.",
+                "i64::checked_pow that is validated concretely against the binary, constrained by closed-form lemmas "
+                "(exponents 0 and 1; bases 0, 1, -1, 2, -2; |base| >= 2 with exponent >= 64 overflows) so that code "
+                "bypassing checked_pow for those cases is decided against the exact power.",
         "note": "Trusted: the rsx interpreter's Rust-subset semantics and std models (listed in evidence), z3; "
                 "Value::unit/bool thread_local constructors and message formatting are modelled. Quick decides the dev "
                 "profile (overflow checks on); thorough also the release profile.",
